@@ -115,6 +115,13 @@ impl Compiler {
                 _ => None,
             };
 
+            // `var x;` without an initializer does nothing at run time: the binding was created
+            // (as undefined) when the scope was entered, and re-executing the declaration, e.g.
+            // in a loop body, must not reset the variable.
+            if is_var && declarator.init.is_none() && inferred_name.is_some() {
+                continue;
+            }
+
             // Compile initializer (or undefined)
             let init_reg = self.builder.alloc_register()?;
             if let Some(init) = &declarator.init {
